@@ -154,3 +154,732 @@ Proof.
   - intros [|k] a H; discriminate.
   - intros [|k] a' H; cbn in *; [inversion H; subst; eauto|eauto].
 Qed.
+
+(* ================================================================= B. membership, claim *)
+Lemma zmem_In a l : zmem a l = true <-> In a l.
+Proof.
+  induction l as [|b r IH]; cbn; [split; [discriminate|tauto]|].
+  rewrite orb_true_iff, Z.eqb_eq, IH. split; intros [H|H]; auto.
+Qed.
+Lemma key_eqb_eq a b : key_eqb a b = true <-> a = b.
+Proof. exact (ckey_eqb_eq a b). Qed.
+Lemma key_mem_In a l : key_mem a l = true <-> In a l.
+Proof.
+  induction l as [|b r IH]; cbn; [split; [discriminate|tauto]|].
+  rewrite orb_true_iff, key_eqb_eq, IH. split; intros [H|H]; auto.
+Qed.
+
+Lemma NoDup_snoc {A} (l : list A) a : NoDup l -> ~ In a l -> NoDup (l ++ [a]).
+Proof.
+  induction 1 as [|b l Hb Hl IH]; intros Ha; cbn.
+  { constructor; [intros []|constructor]. }
+  constructor.
+  - intros Hin. apply in_app_or in Hin. destruct Hin as [Hin|[<-|[]]]; [auto|]. apply Ha; left; reflexivity.
+  - apply IH. intros Hin; apply Ha; right; exact Hin.
+Qed.
+
+Lemma NoDup_app_inv {A} (a b : list A) : NoDup (a ++ b) -> NoDup a /\ NoDup b /\ (forall x, In x a -> ~ In x b).
+Proof.
+  induction a as [|x a IH]; cbn; intros H.
+  - repeat split; [constructor|exact H|intros x []].
+  - inversion H as [|? ? Hx Hr]; subst. destruct (IH Hr) as (Ha & Hb & Hd). repeat split; auto.
+    + constructor; auto. intros Hin; apply Hx; apply in_or_app; auto.
+    + intros y [<-|Hy]; [intros Hin; apply Hx; apply in_or_app; auto|auto].
+Qed.
+Lemma NoDup_app_intro {A} (a b : list A) : NoDup a -> NoDup b -> (forall x, In x a -> ~ In x b) -> NoDup (a ++ b).
+Proof.
+  induction 1 as [|x a Hx Ha IH]; cbn; intros Hb Hd; auto.
+  constructor.
+  - intros Hin; apply in_app_or in Hin; destruct Hin as [Hin|Hin]; [auto|]. apply (Hd x); [left; reflexivity|exact Hin].
+  - apply IH; auto; intros y Hy; apply Hd; right; exact Hy.
+Qed.
+
+Lemma claim_true : forall names ph pth ph', claim ph names pth = (ph', true) ->
+  map fst ph' = map fst ph ++ names /\ NoDup names /\ (forall a, In a names -> ~ In a (map fst ph)).
+Proof.
+  induction names as [|a r IH]; intros ph pth ph' H; cbn in H.
+  - inversion H; subst. rewrite app_nil_r. repeat split; [constructor|intros a []].
+  - destruct (zmem a (map fst ph)) eqn:E; [inversion H|].
+    apply IH in H. destruct H as (Hm & Hn & Hd). rewrite map_app in Hm, Hd. cbn in Hm, Hd.
+    assert (Ha : ~ In a (map fst ph)) by (rewrite <- zmem_In; congruence).
+    repeat split.
+    + rewrite Hm, <- app_assoc. reflexivity.
+    + constructor; auto. intros Hin. apply (Hd a Hin). apply in_or_app; right; left; reflexivity.
+    + intros b [<-|Hb]; auto. intros Hin. apply (Hd b Hb). apply in_or_app; auto.
+Qed.
+
+Lemma claim_any : forall names ph pth ph' b, claim ph names pth = (ph', b) ->
+  (exists ext, ph' = ph ++ ext) /\ (NoDup (map fst ph) -> NoDup (map fst ph')).
+Proof.
+  induction names as [|a r IH]; intros ph pth ph' b H; cbn in H.
+  - inversion H; subst. split; [exists []; rewrite app_nil_r; reflexivity|auto].
+  - destruct (zmem a (map fst ph)) eqn:E.
+    + inversion H; subst. split; [exists []; rewrite app_nil_r; reflexivity|auto].
+    + apply IH in H. destruct H as ([ext He] & Hn). split.
+      * exists ((a, pth) :: ext). rewrite He, <- app_assoc. reflexivity.
+      * intros Hnd. apply Hn. rewrite map_app. cbn. apply NoDup_snoc; auto. rewrite <- zmem_In; congruence.
+Qed.
+
+(* ================================================================= C. one leaf *)
+Definition frame (st st' : state) : Prop :=
+  requested st' = requested st /\ (exists ext, pins st' = pins st ++ ext) /\
+  (exists ext, phys_reqd st' = phys_reqd st ++ ext) /\
+  (NoDup (map fst (phys_reqd st)) -> NoDup (map fst (phys_reqd st'))).
+Lemma frame_refl st : frame st st.
+Proof. repeat split; auto; exists []; rewrite app_nil_r; reflexivity. Qed.
+Lemma frame_trans a b c : frame a b -> frame b c -> frame a c.
+Proof.
+  intros (R1 & [p1 P1] & [q1 Q1] & N1) (R2 & [p2 P2] & [q2 Q2] & N2). repeat split.
+  - congruence.
+  - exists (p1 ++ p2). rewrite P2, P1, app_assoc. reflexivity.
+  - exists (q1 ++ q2). rewrite Q2, Q1, app_assoc. reflexivity.
+  - auto.
+Qed.
+
+Definition opts_ok (d : dval) (x : xval) : Prop :=
+  d = DDash \/ exists dd z, d = DDir dd /\ x = XInt z /\ ((z =? 0) || (z =? 1) || (z =? 2)) = true.
+Definition leaf_resolves (fuel : nat) (cm : connmap) (l : leafd) : Prop :=
+  match l_phys l with
+  | PPins ns => exists pp, map_names fuel cm ns = LOk pp
+  | PDiff ps ns => (exists pp, map_names fuel cm ps = LOk pp) /\ (exists nn, map_names fuel cm ns = LOk nn)
+  end.
+(* the returned leaf against its declaration *)
+Definition leaf_matches (fuel : nat) (cm : connmap) (pth : path) (attrs : alist) (l : leafd) (v : lval) : Prop :=
+  let pt := lv_port v in
+  pt_path pt = pth /\ pt_attrs pt = attrs /\ pt_inv pt = l_inv l /\ pt_dir pt = out_dir (l_dir l) /\
+  lv_clock v = l_clock l /\
+  match l_phys l with
+  | PPins ns => pt_diff pt = false /\ map_names fuel cm ns = LOk (pt_p pt) /\ pt_n pt = []
+  | PDiff ps ns => pt_diff pt = true /\ map_names fuel cm ps = LOk (pt_p pt) /\ map_names fuel cm ns = LOk (pt_n pt)
+  end.
+
+Lemma leaf_finish_spec nm l d x pth attrs st pp nn diff st' r :
+  leaf_finish nm l d x pth attrs st pp nn diff = (st', r) ->
+  frame st st' /\
+  match r with
+  | inr v => map fst (phys_reqd st') = map fst (phys_reqd st) ++ (pp ++ nn) /\
+             (forall a, In a (pp ++ nn) -> ~ In a (map fst (phys_reqd st))) /\
+             io_clocks st' = io_clocks st ++ clock_of v /\
+             lv_port v = mkPort pth diff pp nn (l_inv l) (out_dir (l_dir l)) attrs /\ lv_clock v = l_clock l
+  | inl e => opts_ok d x -> e = EResource
+  end.
+Proof.
+  unfold leaf_finish. intros H.
+  set (st1 := add_clock st (pth, if diff then 1 else 0) (l_clock l)) in *.
+  assert (R1 : requested st1 = requested st) by (unfold st1, add_clock; destruct (l_clock l); reflexivity).
+  assert (P1 : pins st1 = pins st) by (unfold st1, add_clock; destruct (l_clock l); reflexivity).
+  assert (Q1 : phys_reqd st1 = phys_reqd st) by (unfold st1, add_clock; destruct (l_clock l); reflexivity).
+  assert (C1 : io_clocks st1 = io_clocks st ++
+               match l_clock l with Some f => [((pth, if diff then 1 else 0), f)] | None => [] end)
+    by (unfold st1, add_clock; destruct (l_clock l); cbn; [reflexivity|rewrite app_nil_r; reflexivity]).
+  destruct (claim (phys_reqd st1) (pp ++ nn) pth) as [ph ok] eqn:Ec. rewrite Q1 in Ec.
+  destruct (claim_any _ _ _ _ _ Ec) as ([ext Hext] & Hnd).
+  assert (F0 : forall pn, frame st (mkSt (requested st1) ph (io_clocks st1) (pins st1 ++ pn))).
+  { intros pn. repeat split; cbn; auto. exists pn; rewrite P1; reflexivity. exists ext; exact Hext. }
+  assert (F1 : frame st (mkSt (requested st1) ph (io_clocks st1) (pins st1))).
+  { specialize (F0 []). rewrite app_nil_r in F0. exact F0. }
+  destruct ok; cbn [negb] in H.
+  2:{ inversion H; subst. split; auto. }
+  destruct (claim_true _ _ _ _ Ec) as (Hm & _ & Hd).
+  assert (OK : forall v, lv_port v = mkPort pth diff pp nn (l_inv l) (out_dir (l_dir l)) attrs ->
+                         lv_clock v = l_clock l -> io_clocks st1 = io_clocks st ++ clock_of v).
+  { intros v Hp Hc. rewrite C1. unfold clock_of. rewrite Hc, Hp. reflexivity. }
+  destruct d as [| |dd| |dl].
+  - inversion H; subst. split; auto. intros [E|(dd & z & E & _)]; discriminate.
+  - inversion H; subst. split; [exact F1|]. cbn. repeat split; auto.
+  - destruct x as [|z| |xl].
+    + inversion H; subst. split; auto. intros [E|(dd' & z & _ & E & _)]; discriminate.
+    + destruct ((z =? 0) || (z =? 1) || (z =? 2)) eqn:Ez.
+      * inversion H; subst. split; [apply F0|]. cbn. repeat split; auto.
+      * inversion H; subst. split; auto. intros [E|(dd' & z' & _ & E & Hz)]; [discriminate|].
+        inversion E; subst. congruence.
+    + inversion H; subst. split; auto. intros [E|(dd' & z & _ & E & _)]; discriminate.
+    + inversion H; subst. split; auto. intros [E|(dd' & z & _ & E & _)]; discriminate.
+  - inversion H; subst. split; auto. intros [E|(dd & z & E & _)]; discriminate.
+  - inversion H; subst. split; auto. intros [E|(dd & z & E & _)]; discriminate.
+Qed.
+
+Lemma resolve_leaf_spec fuel cm nm l d x pth attrs st st' r :
+  resolve_leaf fuel cm nm l d x pth attrs st = (st', r) ->
+  frame st st' /\
+  match r with
+  | inr v => map fst (phys_reqd st') = map fst (phys_reqd st) ++ port_pins (lv_port v) /\
+             (forall a, In a (port_pins (lv_port v)) -> ~ In a (map fst (phys_reqd st))) /\
+             io_clocks st' = io_clocks st ++ clock_of v /\
+             leaf_matches fuel cm pth attrs l v
+  | inl e => opts_ok d x -> leaf_resolves fuel cm l -> e = EResource
+  end.
+Proof.
+  unfold resolve_leaf, leaf_resolves, leaf_matches. intros H.
+  destruct (l_phys l) as [ns|ps ns].
+  - destruct (map_names fuel cm ns) as [pp| |] eqn:E1.
+    + apply leaf_finish_spec in H. destruct H as (F & H). split; auto.
+      destruct r as [e|v]; [tauto|]. destruct H as (Hm & Hd & Hc & Hp & Hk).
+      unfold port_pins. rewrite Hp; cbn. repeat split; auto.
+    + inversion H; subst. split; [apply frame_refl|]. intros _ [pp Hp]; discriminate.
+    + inversion H; subst. split; [apply frame_refl|]. intros _ [pp Hp]; discriminate.
+  - destruct (map_names fuel cm ps) as [pp| |] eqn:E1.
+    + destruct (map_names fuel cm ns) as [nn| |] eqn:E2.
+      * apply leaf_finish_spec in H. destruct H as (F & H). split; auto.
+        destruct r as [e|v]; [tauto|]. destruct H as (Hm & Hd & Hc & Hp & Hk).
+        unfold port_pins. rewrite Hp; cbn. repeat split; auto.
+      * inversion H; subst. split; [apply frame_refl|]. intros _ [_ [nn Hn]]; discriminate.
+      * inversion H; subst. split; [apply frame_refl|]. intros _ [_ [nn Hn]]; discriminate.
+    + inversion H; subst. split; [apply frame_refl|]. intros _ [[pp Hp] _]; discriminate.
+    + inversion H; subst. split; [apply frame_refl|]. intros _ [[pp Hp] _]; discriminate.
+Qed.
+
+(* ================================================================= D. the tree as a list of leaf jobs *)
+Record job := mkJob { j_name : Z; j_leaf : leafd; j_d : dval; j_x : xval; j_path : path; j_attrs : alist }.
+
+Fixpoint flatten (n : node) (d : dval) (x : xval) (pth : path) (attrs : alist) {struct n} : list job :=
+  match n with
+  | Leaf nm _ l => [mkJob nm l d x pth attrs]
+  | Group _ _ subs =>
+    (fix go (ss : list node) : list job :=
+       match ss with
+       | [] => []
+       | s :: r => flatten s (dget (ddict d) (node_name s)) (xget (xdict x) (node_name s))
+                           (path_snoc pth (node_name s)) (amerge attrs (node_attrs s)) ++ go r
+       end) subs
+  end.
+Fixpoint flatten_list (ss : list node) (d : dval) (x : xval) (pth : path) (attrs : alist) : list job :=
+  match ss with
+  | [] => []
+  | s :: r => flatten s (dget (ddict d) (node_name s)) (xget (xdict x) (node_name s))
+                      (path_snoc pth (node_name s)) (amerge attrs (node_attrs s)) ++ flatten_list r d x pth attrs
+  end.
+Lemma flatten_group nm a subs d x pth attrs :
+  flatten (Group nm a subs) d x pth attrs = flatten_list subs d x pth attrs.
+Proof. cbn [flatten]. induction subs as [|s r IH]; [reflexivity|]. cbn [flatten_list]. rewrite <- IH. reflexivity. Qed.
+
+Fixpoint resolve_list (fuel : nat) (cm : connmap) (ss : list node) (d : dval) (x : xval) (pth : path)
+         (attrs : alist) (st : state) : state * (err + list value) :=
+  match ss with
+  | [] => (st, inr [])
+  | s :: r =>
+    match resolve fuel cm s (dget (ddict d) (node_name s)) (xget (xdict x) (node_name s))
+                  (path_snoc pth (node_name s)) (amerge attrs (node_attrs s)) st with
+    | (st', inl e) => (st', inl e)
+    | (st', inr v) => match resolve_list fuel cm r d x pth attrs st' with
+                      | (st'', inl e) => (st'', inl e)
+                      | (st'', inr vs) => (st'', inr (v :: vs))
+                      end
+    end
+  end.
+Lemma resolve_group fuel cm nm a subs d x pth attrs st :
+  resolve fuel cm (Group nm a subs) d x pth attrs st =
+  match resolve_list fuel cm subs d x pth attrs st with
+  | (st', inl e) => (st', inl e)
+  | (st', inr vs) => (st', inr (VGroup nm vs))
+  end.
+Proof.
+  cbn [resolve].
+  match goal with |- match ?f subs st with _ => _ end = _ =>
+    assert (E : forall ss s0, f ss s0 = resolve_list fuel cm ss d x pth attrs s0) end.
+  { induction ss as [|s r IH]; intros s0; [reflexivity|]. cbn [resolve_list].
+    destruct (resolve fuel cm s (dget (ddict d) (node_name s)) (xget (xdict x) (node_name s))
+                      (path_snoc pth (node_name s)) (amerge attrs (node_attrs s)) s0) as [s1 [e|v]]; [reflexivity|].
+    rewrite IH. reflexivity. }
+  rewrite E. reflexivity.
+Qed.
+
+Fixpoint leaves_list (vs : list value) : list lval :=
+  match vs with [] => [] | v :: r => leaves v ++ leaves_list r end.
+Lemma leaves_group nm vs : leaves (VGroup nm vs) = leaves_list vs.
+Proof. cbn [leaves]. induction vs as [|v r IH]; [reflexivity|]. cbn [leaves_list]. rewrite <- IH. reflexivity. Qed.
+Fixpoint leaves_of_list (ss : list node) : list leafd :=
+  match ss with [] => [] | s :: r => leaves_of s ++ leaves_of_list r end.
+Lemma leaves_of_group nm a ss : leaves_of (Group nm a ss) = leaves_of_list ss.
+Proof. cbn [leaves_of]. induction ss as [|s r IH]; [reflexivity|]. cbn [leaves_of_list]. rewrite <- IH. reflexivity. Qed.
+
+Fixpoint node_ind' (P : node -> Prop)
+         (HL : forall nm a l, P (Leaf nm a l))
+         (HG : forall nm a subs, Forall P subs -> P (Group nm a subs)) (n : node) {struct n} : P n :=
+  match n with
+  | Leaf nm a l => HL nm a l
+  | Group nm a subs =>
+    HG nm a subs ((fix go (ss : list node) : Forall P ss :=
+                     match ss with
+                     | [] => Forall_nil P
+                     | s :: r => Forall_cons s (node_ind' P HL HG s) (go r)
+                     end) subs)
+  end.
+
+Fixpoint run_jobs (fuel : nat) (cm : connmap) (js : list job) (st : state) : state * (err + list lval) :=
+  match js with
+  | [] => (st, inr [])
+  | j :: r =>
+    match resolve_leaf fuel cm (j_name j) (j_leaf j) (j_d j) (j_x j) (j_path j) (j_attrs j) st with
+    | (st', inl e) => (st', inl e)
+    | (st', inr v) => match run_jobs fuel cm r st' with
+                      | (st'', inl e) => (st'', inl e)
+                      | (st'', inr vs) => (st'', inr (v :: vs))
+                      end
+    end
+  end.
+
+Lemma run_jobs_app fuel cm : forall a b st,
+  run_jobs fuel cm (a ++ b) st =
+  match run_jobs fuel cm a st with
+  | (st', inl e) => (st', inl e)
+  | (st', inr va) => match run_jobs fuel cm b st' with
+                     | (st'', inl e) => (st'', inl e)
+                     | (st'', inr vb) => (st'', inr (va ++ vb))
+                     end
+  end.
+Proof.
+  induction a as [|j r IH]; intros b st; cbn [app run_jobs].
+  - destruct (run_jobs fuel cm b st) as [s [e|v]]; reflexivity.
+  - destruct (resolve_leaf fuel cm (j_name j) (j_leaf j) (j_d j) (j_x j) (j_path j) (j_attrs j) st) as [s1 [e|v]];
+      [reflexivity|].
+    rewrite IH. destruct (run_jobs fuel cm r s1) as [s2 [e|va]]; [reflexivity|].
+    destruct (run_jobs fuel cm b s2) as [s3 [e|vb]]; reflexivity.
+Qed.
+
+Lemma resolve_flat fuel cm : forall n d x pth attrs st,
+  run_jobs fuel cm (flatten n d x pth attrs) st =
+  match resolve fuel cm n d x pth attrs st with
+  | (st', inl e) => (st', inl e)
+  | (st', inr v) => (st', inr (leaves v))
+  end.
+Proof.
+  induction n as [nm a l|nm a subs IH] using node_ind'; intros d x pth attrs st.
+  - cbn [flatten run_jobs resolve j_name j_leaf j_d j_x j_path j_attrs].
+    destruct (resolve_leaf fuel cm nm l d x pth attrs st) as [s1 [e|v]]; reflexivity.
+  - rewrite flatten_group, resolve_group.
+    assert (E : forall st, run_jobs fuel cm (flatten_list subs d x pth attrs) st =
+                match resolve_list fuel cm subs d x pth attrs st with
+                | (st', inl e) => (st', inl e)
+                | (st', inr vs) => (st', inr (leaves_list vs))
+                end).
+    { clear st. induction IH as [|s r Hs _ IHr]; intros st; [reflexivity|].
+      cbn [flatten_list resolve_list]. rewrite run_jobs_app, Hs.
+      destruct (resolve fuel cm s (dget (ddict d) (node_name s)) (xget (xdict x) (node_name s))
+                        (path_snoc pth (node_name s)) (amerge attrs (node_attrs s)) st) as [s1 [e|v]]; [reflexivity|].
+      rewrite IHr. destruct (resolve_list fuel cm r d x pth attrs s1) as [s2 [e|vs]]; reflexivity. }
+    rewrite E. destruct (resolve_list fuel cm subs d x pth attrs st) as [s1 [e|vs]]; [reflexivity|].
+    rewrite leaves_group. reflexivity.
+Qed.
+
+Lemma flatten_leaves : forall n d x pth attrs, map j_leaf (flatten n d x pth attrs) = leaves_of n.
+Proof.
+  induction n as [nm a l|nm a subs IH] using node_ind'; intros d x pth attrs; [reflexivity|].
+  rewrite flatten_group, leaves_of_group.
+  induction IH as [|s r Hs _ IHr]; [reflexivity|]. cbn [flatten_list leaves_of_list].
+  rewrite map_app, Hs, IHr. reflexivity.
+Qed.
+
+Lemma flatten_path_head : forall n d x pth attrs, Forall (fun j => fst (j_path j) = fst pth) (flatten n d x pth attrs).
+Proof.
+  induction n as [nm a l|nm a subs IH] using node_ind'; intros d x pth attrs.
+  - cbn. constructor; [reflexivity|constructor].
+  - rewrite flatten_group. induction IH as [|s r Hs _ IHr]; [constructor|]. cbn [flatten_list].
+    apply Forall_app. split; [|exact IHr]. exact (Hs _ _ (path_snoc pth (node_name s)) _).
+Qed.
+
+Definition lpins (vs : list lval) : list Z := concat (map (fun v => port_pins (lv_port v)) vs).
+
+Lemma run_jobs_spec fuel cm : forall js st st' r, run_jobs fuel cm js st = (st', r) ->
+  frame st st' /\
+  match r with
+  | inr vs => map fst (phys_reqd st') = map fst (phys_reqd st) ++ lpins vs /\
+              (forall a, In a (lpins vs) -> ~ In a (map fst (phys_reqd st))) /\
+              io_clocks st' = io_clocks st ++ concat (map clock_of vs) /\
+              Forall2 (fun j v => leaf_matches fuel cm (j_path j) (j_attrs j) (j_leaf j) v) js vs
+  | inl e => Forall (fun j => opts_ok (j_d j) (j_x j)) js ->
+             Forall (fun j => leaf_resolves fuel cm (j_leaf j)) js -> e = EResource
+  end.
+Proof.
+  induction js as [|j js IH]; intros st st' r H; cbn [run_jobs] in H.
+  - inversion H; subst. split; [apply frame_refl|]. unfold lpins; cbn. rewrite !app_nil_r. repeat split; auto.
+  - destruct (resolve_leaf fuel cm (j_name j) (j_leaf j) (j_d j) (j_x j) (j_path j) (j_attrs j) st)
+      as [s1 [e|v]] eqn:E1; apply resolve_leaf_spec in E1; destruct E1 as (F1 & S1).
+    + inversion H; subst. split; auto. intros Ho Hr. inversion Ho; inversion Hr; subst. auto.
+    + destruct (run_jobs fuel cm js s1) as [s2 [e|vs]] eqn:E2; apply IH in E2; destruct E2 as (F2 & S2);
+        inversion H; subst; (split; [eapply frame_trans; eauto|]).
+      * intros Ho Hr. inversion Ho; inversion Hr; subst. auto.
+      * destruct S1 as (M1 & D1 & C1 & L1). destruct S2 as (M2 & D2 & C2 & L2).
+        unfold lpins in *. cbn [map concat]. repeat split.
+        -- rewrite M2, M1, <- app_assoc. reflexivity.
+        -- intros b Hb. apply in_app_or in Hb. destruct Hb as [Hb|Hb]; [auto|].
+           intros Hin. apply (D2 b Hb). rewrite M1. apply in_or_app; auto.
+        -- rewrite C2, C1, <- app_assoc. reflexivity.
+        -- constructor; auto.
+Qed.
+
+(* ================================================================= E. one request *)
+Lemma state_eta st : mkSt (requested st) (phys_reqd st) (io_clocks st) (pins st) = st.
+Proof. destruct st; reflexivity. Qed.
+
+Definition root_path (q : req) : path := (q_key q, []).
+
+Lemma request_error t cm st q st' e : request t cm st q = (st', Error e) -> st' = st.
+Proof.
+  unfold request. destruct (tbl_lookup t (q_key q)) as [res|]; [|intros H; inversion H; auto].
+  destruct (key_mem (q_key q) (requested st)); [intros H; inversion H; auto|].
+  destruct (merge_options res (q_dir q) (q_xdr q)) as [e0|[d x]]; [intros H; inversion H; auto|].
+  destruct (resolve (cm_fuel cm) cm res d x (q_key q, []) (node_attrs res) st) as [s1 [e1|v]] eqn:E;
+    intros H; inversion H; subst.
+  pose proof (resolve_flat (cm_fuel cm) cm res d x (q_key q, []) (node_attrs res) st) as RF. rewrite E in RF.
+  apply run_jobs_spec in RF. destruct RF as ((R & [pe P] & _ & _) & _).
+  rewrite R, P, firstn_app, Nat.sub_diag, firstn_all. cbn. rewrite app_nil_r. apply state_eta.
+Qed.
+
+Definition wf_port (p : port) : Prop := pt_diff p = false -> pt_n p = [].
+
+Lemma request_ok t cm st q st' v : request t cm st q = (st', Ok v) ->
+  exists res d x, tbl_lookup t (q_key q) = Some res /\ key_mem (q_key q) (requested st) = false /\
+    merge_options res (q_dir q) (q_xdr q) = inr (d, x) /\
+    requested st' = requested st ++ [q_key q] /\
+    map fst (phys_reqd st') = map fst (phys_reqd st) ++ value_pins v /\
+    (forall a, In a (value_pins v) -> ~ In a (map fst (phys_reqd st))) /\
+    (NoDup (map fst (phys_reqd st)) -> NoDup (map fst (phys_reqd st'))) /\
+    io_clocks st' = io_clocks st ++ value_clocks v /\
+    Forall2 (fun j l => leaf_matches (cm_fuel cm) cm (j_path j) (j_attrs j) (j_leaf j) l)
+            (flatten res d x (root_path q) (node_attrs res)) (leaves v).
+Proof.
+  unfold request. destruct (tbl_lookup t (q_key q)) as [res|]; [|intros H; inversion H].
+  destruct (key_mem (q_key q) (requested st)) eqn:Ek; [intros H; inversion H|].
+  destruct (merge_options res (q_dir q) (q_xdr q)) as [e0|[d x]] eqn:Em; [intros H; inversion H|].
+  destruct (resolve (cm_fuel cm) cm res d x (q_key q, []) (node_attrs res) st) as [s1 [e1|v1]] eqn:E;
+    intros H; inversion H; subst.
+  pose proof (resolve_flat (cm_fuel cm) cm res d x (q_key q, []) (node_attrs res) st) as RF. rewrite E in RF.
+  apply run_jobs_spec in RF. destruct RF as ((R & _ & _ & N) & M & D & C & L).
+  exists res, d, x. cbn. rewrite R. repeat split; auto.
+Qed.
+
+Lemma Forall2_map_l {A B C} (R : B -> C -> Prop) (f : A -> B) : forall la lc,
+  Forall2 (fun a c => R (f a) c) la lc -> Forall2 R (map f la) lc.
+Proof. induction 1; cbn; constructor; auto. Qed.
+Lemma Forall2_In_l {A B} (R : A -> B -> Prop) : forall la lb a, Forall2 R la lb -> In a la -> exists b, In b lb /\ R a b.
+Proof.
+  induction 1 as [|x y la lb Hxy _ IH]; intros Hin; [destruct Hin|].
+  destruct Hin as [<-|Hin]; [exists y; split; [left; reflexivity|exact Hxy]|].
+  destruct (IH Hin) as (b & Hb & Hr). exists b; split; [right; exact Hb|exact Hr].
+Qed.
+Lemma Forall2_Forall_r {A B} (R : A -> B -> Prop) (P : B -> Prop) : forall la lb,
+  Forall2 R la lb -> (forall a b, R a b -> P b) -> Forall P lb.
+Proof. induction 1; intros HP; constructor; eauto. Qed.
+Lemma Forall2_Forall_l {A B} (R : A -> B -> Prop) (P : A -> Prop) (Q : A -> B -> Prop) : forall la lb,
+  Forall2 R la lb -> Forall P la -> (forall a b, R a b -> P a -> Q a b) -> Forall2 Q la lb.
+Proof. induction 1; intros HP HQ; constructor; inversion HP; subst; eauto. Qed.
+
+(* the declaration-level reading of a returned leaf: bit k of the port carries the k-th declared
+   name after connector resolution; inversion, direction (oe -> o) and clock as declared *)
+Definition names_resolve (cm : connmap) (ns : list pname) (ps : list Z) : Prop :=
+  Forall2 (fun n p => resolve_name (cm_fuel cm) cm n = MOk p) ns ps.
+Definition decl_matches (cm : connmap) (l : leafd) (v : lval) : Prop :=
+  let pt := lv_port v in
+  pt_inv pt = l_inv l /\ pt_dir pt = out_dir (l_dir l) /\ lv_clock v = l_clock l /\
+  match l_phys l with
+  | PPins ns => pt_diff pt = false /\ names_resolve cm ns (pt_p pt) /\ pt_n pt = []
+  | PDiff ps ns => pt_diff pt = true /\ names_resolve cm ps (pt_p pt) /\ names_resolve cm ns (pt_n pt)
+  end.
+Lemma leaf_matches_decl cm pth attrs l v : leaf_matches (cm_fuel cm) cm pth attrs l v -> decl_matches cm l v.
+Proof.
+  unfold leaf_matches, decl_matches, names_resolve. intros (_ & _ & Hi & Hd & Hc & Hp). repeat split; auto.
+  destruct (l_phys l); destruct Hp as (H1 & H2 & H3); repeat split; auto using map_names_Forall2.
+Qed.
+Lemma leaf_matches_wf cm pth attrs l v : leaf_matches (cm_fuel cm) cm pth attrs l v -> wf_port (lv_port v).
+Proof.
+  unfold leaf_matches, wf_port. intros (_ & _ & _ & _ & _ & Hp) Hd.
+  destruct (l_phys l); destruct Hp as (H1 & H2 & H3); [auto|congruence].
+Qed.
+
+Lemma request_ok_decl t cm st q st' v : request t cm st q = (st', Ok v) ->
+  exists res, tbl_lookup t (q_key q) = Some res /\
+    Forall2 (decl_matches cm) (leaves_of res) (leaves v) /\
+    Forall (fun l => fst (pt_path (lv_port l)) = q_key q /\ wf_port (lv_port l)) (leaves v).
+Proof.
+  intros H. destruct (request_ok _ _ _ _ _ _ H) as (res & d & x & Hl & _ & _ & _ & _ & _ & _ & _ & L).
+  exists res. split; auto. split.
+  - rewrite <- (flatten_leaves res d x (root_path q) (node_attrs res)). apply Forall2_map_l.
+    eapply Forall2_Forall_l with (P := fun _ => True); [exact L|apply Forall_forall; auto|].
+    intros j l Hm _. cbn beta. eapply leaf_matches_decl. exact Hm.
+  - pose proof (flatten_path_head res d x (root_path q) (node_attrs res)) as HP.
+    assert (L2 : Forall2 (fun j l => fst (pt_path (lv_port l)) = q_key q /\ wf_port (lv_port l))
+                         (flatten res d x (root_path q) (node_attrs res)) (leaves v)).
+    { eapply Forall2_Forall_l; [exact L|exact HP|]. intros j l Hm Hj. split.
+      - destruct Hm as (Hpth & _). rewrite Hpth, Hj. reflexivity.
+      - eapply leaf_matches_wf. exact Hm. }
+    eapply Forall2_Forall_r; [exact L2|]. auto.
+Qed.
+
+Lemma request_again t cm st q : In (q_key q) (requested st) -> request t cm st q = (st, Error EResource).
+Proof.
+  intros Hin. unfold request. destruct (tbl_lookup t (q_key q)); [|reflexivity].
+  apply key_mem_In in Hin. rewrite Hin. reflexivity.
+Qed.
+
+(* pins a resource would occupy, after connector resolution *)
+Definition phys_lists (p : phys) : list (list pname) := match p with PPins ns => [ns] | PDiff ps ns => [ps; ns] end.
+Definition leaf_uses (cm : connmap) (l : leafd) (a : Z) : Prop :=
+  exists ns pl, In ns (phys_lists (l_phys l)) /\ map_names (cm_fuel cm) cm ns = LOk pl /\ In a pl.
+Definition uses (cm : connmap) (res : node) (a : Z) : Prop := exists l, In l (leaves_of res) /\ leaf_uses cm l a.
+
+Lemma request_conflict t cm st q res st' r :
+  tbl_lookup t (q_key q) = Some res -> request t cm st q = (st', r) ->
+  (exists a, In a (map fst (phys_reqd st)) /\ uses cm res a) ->
+  exists e, r = Error e /\ st' = st.
+Proof.
+  intros Hl H (a & Ha & l & Hlin & ns & pl & Hns & Hm & Hapl).
+  destruct r as [v|e]; [|exists e; split; auto; eapply request_error; eauto].
+  exfalso. destruct (request_ok _ _ _ _ _ _ H) as (res' & d & x & Hl' & _ & _ & _ & _ & D & _ & _ & L).
+  rewrite Hl in Hl'. inversion Hl'; subst res'.
+  rewrite <- (flatten_leaves res d x (root_path q) (node_attrs res)) in Hlin.
+  apply in_map_iff in Hlin. destruct Hlin as (j & Hj & Hjin).
+  destruct (Forall2_In_l _ _ _ _ L Hjin) as (lv & Hlv & Hmatch).
+  apply (D a); [|exact Ha].
+  unfold value_pins. apply in_concat. exists (port_pins (lv_port lv)). split.
+  - apply in_map_iff. exists lv; auto.
+  - destruct Hmatch as (_ & _ & _ & _ & _ & Hp). rewrite Hj in Hp. unfold port_pins.
+    destruct (l_phys l); cbn in Hns.
+    + destruct Hns as [<-|[]]. destruct Hp as (_ & Hp & _). rewrite Hm in Hp. inversion Hp; subst.
+      apply in_or_app; auto.
+    + destruct Hp as (_ & Hp1 & Hp2). destruct Hns as [<-|[<-|[]]].
+      * rewrite Hm in Hp1. inversion Hp1; subst. apply in_or_app; auto.
+      * rewrite Hm in Hp2. inversion Hp2; subst. apply in_or_app; auto.
+Qed.
+
+Lemma request_refusal_kind t cm st q res d x st' e :
+  tbl_lookup t (q_key q) = Some res -> key_mem (q_key q) (requested st) = false ->
+  merge_options res (q_dir q) (q_xdr q) = inr (d, x) ->
+  Forall (fun j => opts_ok (j_d j) (j_x j)) (flatten res d x (root_path q) (node_attrs res)) ->
+  Forall (leaf_resolves (cm_fuel cm) cm) (leaves_of res) ->
+  request t cm st q = (st', Error e) -> e = EResource.
+Proof.
+  intros Hl Hk Hm Ho Hr. unfold request. rewrite Hl, Hk, Hm.
+  destruct (resolve (cm_fuel cm) cm res d x (q_key q, []) (node_attrs res) st) as [s1 [e1|v1]] eqn:E;
+    intros H; inversion H; subst.
+  pose proof (resolve_flat (cm_fuel cm) cm res d x (q_key q, []) (node_attrs res) st) as RF. rewrite E in RF.
+  apply run_jobs_spec in RF. destruct RF as (_ & K). apply K; auto.
+  rewrite <- (flatten_leaves res d x (root_path q) (node_attrs res)) in Hr.
+  rewrite Forall_map in Hr. exact Hr.
+Qed.
+
+(* ================================================================= F. histories *)
+Lemma granted_app a b : granted (a ++ b) = granted a ++ granted b.
+Proof. induction a as [|[q [v|e]] r IH]; cbn; [reflexivity|rewrite IH; reflexivity|exact IH]. Qed.
+
+Lemma fold_left_inv {A B} (f : A -> B -> A) (P : A -> Prop) :
+  (forall a b, P a -> P (f a b)) -> forall l a, P a -> P (fold_left f l a).
+Proof. intros Hs; induction l as [|b l IH]; cbn; auto. Qed.
+
+Definition gkeys (g : list (req * value)) : list key := map (fun qv => q_key (fst qv)) g.
+Definition gpins (g : list (req * value)) : list Z := concat (map (fun qv => value_pins (snd qv)) g).
+Definition gclocks (g : list (req * value)) : list ((path * Z) * Z) := concat (map (fun qv => value_clocks (snd qv)) g).
+Definition decl_clocks (res : node) : list Z :=
+  concat (map (fun l => match l_clock l with Some f => [f] | None => [] end) (leaves_of res)).
+
+Definition granted_ok (t : table) (cm : connmap) (qv : req * value) : Prop :=
+  exists res, tbl_lookup t (q_key (fst qv)) = Some res /\
+    Forall2 (decl_matches cm) (leaves_of res) (leaves (snd qv)) /\
+    Forall (fun l => fst (pt_path (lv_port l)) = q_key (fst qv) /\ wf_port (lv_port l)) (leaves (snd qv)).
+
+Definition Inv (t : table) (cm : connmap) (acc : state * list (req * result)) : Prop :=
+  let st := fst acc in let g := granted (snd acc) in
+  requested st = gkeys g /\ map fst (phys_reqd st) = gpins g /\ NoDup (gpins g) /\
+  io_clocks st = gclocks g /\ NoDup (gkeys g) /\ Forall (granted_ok t cm) g.
+
+Lemma step_inv t cm acc q : Inv t cm acc -> Inv t cm (step t cm acc q).
+Proof.
+  destruct acc as [st outs]. unfold Inv, step. cbn [fst snd]. intros (R & P & N & C & K & G).
+  destruct (request t cm st q) as [st' [v|e]] eqn:E; cbn [fst snd]; rewrite granted_app; cbn [granted].
+  - pose proof (request_ok_decl _ _ _ _ _ _ E) as GO.
+    destruct (request_ok _ _ _ _ _ _ E) as (res & d & x & Hl & Hk & _ & R' & P' & D' & N' & C' & _).
+    unfold gkeys, gpins, gclocks in *. rewrite !map_app, !concat_app. cbn [map concat fst snd]. rewrite !app_nil_r.
+    repeat split.
+    + rewrite R', R. reflexivity.
+    + rewrite P', P. reflexivity.
+    + rewrite <- P, <- P'. apply N'. rewrite P. exact N.
+    + rewrite C', C. reflexivity.
+    + rewrite <- R. apply NoDup_snoc; [rewrite R; exact K|]. rewrite <- key_mem_In. congruence.
+    + apply Forall_app. split; [exact G|]. constructor; [exact GO|constructor].
+  - apply request_error in E. subst st'. rewrite app_nil_r. repeat split; auto.
+Qed.
+
+Lemma run_inv t cm hist : Inv t cm (run t cm hist).
+Proof.
+  unfold run. apply fold_left_inv; [intros; apply step_inv; assumption|].
+  unfold Inv; cbn. repeat split; constructor.
+Qed.
+
+(* ================================================================= G. constraints *)
+Lemma bits_from_pins port at_ : forall meta k, map c_pin (bits_from port at_ k meta) = meta.
+Proof. induction meta as [|m r IH]; intros k; cbn; [reflexivity|rewrite IH; reflexivity]. Qed.
+Lemma port_entries_pins p : map c_pin (port_entries p) = io_meta p.
+Proof. unfold port_entries. destruct (io_meta p) as [|m [|m2 r]]; try reflexivity. apply bits_from_pins. Qed.
+Lemma port_constraints_pins ports : map c_pin (port_constraints ports) = concat (map io_meta ports).
+Proof.
+  unfold port_constraints. induction ports as [|p r IH]; cbn; [reflexivity|].
+  rewrite map_app, port_entries_pins, IH. reflexivity.
+Qed.
+Lemma port_ioports_pins p : wf_port p -> concat (map io_meta (port_ioports p)) = port_pins p.
+Proof.
+  unfold wf_port, port_ioports, port_pins. destruct (pt_diff p); cbn; intros H.
+  - rewrite app_nil_r. reflexivity.
+  - rewrite H by reflexivity. reflexivity.
+Qed.
+Lemma value_ioports_pins v : Forall (fun l => wf_port (lv_port l)) (leaves v) ->
+  concat (map io_meta (value_ioports v)) = value_pins v.
+Proof.
+  unfold value_ioports, value_pins. induction 1 as [|l r Hl _ IH]; cbn; [reflexivity|].
+  rewrite map_app, concat_app, IH, port_ioports_pins by exact Hl. reflexivity.
+Qed.
+
+Definition gports (g : list (req * value)) : list ioport := concat (map (fun qv => value_ioports (snd qv)) g).
+Lemma gports_pins t cm g : Forall (granted_ok t cm) g -> concat (map io_meta (gports g)) = gpins g.
+Proof.
+  unfold gports, gpins. induction 1 as [|qv r (res & _ & _ & Hw) _ IH]; cbn; [reflexivity|].
+  rewrite map_app, concat_app, IH, value_ioports_pins; [reflexivity|].
+  eapply Forall_impl; [|exact Hw]. cbn. tauto.
+Qed.
+
+Lemma NoDup_concat_filter {A B} (g : A -> list B) (f : A -> bool) : forall l,
+  NoDup (concat (map g l)) -> NoDup (concat (map g (filter f l))).
+Proof.
+  induction l as [|a r IH]; cbn; auto. intros H.
+  destruct (NoDup_app_inv _ _ H) as (Ha & Hr & Hd).
+  destruct (f a); cbn; auto.
+  apply NoDup_app_intro; auto. intros x Hx Hin. apply (Hd x Hx).
+  apply in_concat in Hin. destruct Hin as (lst & Hl & Hxl). apply in_concat. exists lst. split; auto.
+  apply in_map_iff in Hl. destruct Hl as (y & <- & Hy). apply in_map_iff. exists y. split; auto.
+  apply filter_In in Hy. tauto.
+Qed.
+
+Lemma bits_from_nth port at_ : forall meta k0 k m, nth_error meta k = Some m ->
+  nth_error (bits_from port at_ k0 meta) k = Some (mkC port (Some (k0 + Z.of_nat k)) m at_).
+Proof.
+  induction meta as [|m0 r IH]; intros k0 k m H; destruct k as [|k]; cbn in H; try discriminate.
+  - inversion H; subst. cbn. rewrite Z.add_0_r. reflexivity.
+  - cbn [bits_from nth_error]. rewrite (IH (k0 + 1) k m H).
+    replace (k0 + Z.of_nat (S k)) with (k0 + 1 + Z.of_nat k) by lia. reflexivity.
+Qed.
+Definition bit_name (width : nat) (k : nat) : option Z := if Nat.eqb width 1 then None else Some (Z.of_nat k).
+Lemma port_entries_nth p k m : nth_error (io_meta p) k = Some m ->
+  nth_error (port_entries p) k = Some (mkC (io_name p) (bit_name (length (io_meta p)) k) m (io_attrs p)).
+Proof.
+  unfold port_entries, bit_name. destruct (io_meta p) as [|m0 [|m1 r]] eqn:E; intros H.
+  - destruct k; discriminate.
+  - destruct k as [|[|k]]; cbn in H; try discriminate. inversion H; subst. reflexivity.
+  - rewrite (bits_from_nth _ _ _ 0 k m H). reflexivity.
+Qed.
+Lemma port_entries_length p : length (port_entries p) = length (io_meta p).
+Proof. rewrite <- (port_entries_pins p), map_length. reflexivity. Qed.
+
+Lemma decl_clocks_value cm res v : Forall2 (decl_matches cm) (leaves_of res) (leaves v) ->
+  map snd (value_clocks v) = decl_clocks res.
+Proof.
+  unfold value_clocks, decl_clocks. induction 1 as [|l lv ls lvs (_ & _ & Hc & _) _ IH]; cbn; [reflexivity|].
+  rewrite map_app, IH. f_equal. unfold clock_of. rewrite Hc. destruct (l_clock l); reflexivity.
+Qed.
+
+(* distinct granted requests own distinct port names *)
+Lemma gports_names_head t cm g : Forall (granted_ok t cm) g ->
+  forall p, In p (gports g) -> In (fst (fst (io_name p))) (gkeys g).
+Proof.
+  unfold gports, gkeys. induction 1 as [|qv r (res & _ & _ & Hw) _ IH]; cbn; intros p Hp; [destruct Hp|].
+  apply in_app_or in Hp. destruct Hp as [Hp|Hp]; [left|right; auto].
+  unfold value_ioports in Hp. apply in_concat in Hp. destruct Hp as (lst & Hl & Hpl).
+  apply in_map_iff in Hl. destruct Hl as (l & <- & Hlin).
+  rewrite Forall_forall in Hw. destruct (Hw l Hlin) as (Hh & _).
+  unfold port_ioports in Hpl. destruct (pt_diff (lv_port l)); cbn in Hpl;
+    repeat (destruct Hpl as [<-|Hpl]; [cbn; congruence|]); destruct Hpl.
+Qed.
+
+(* ================================================================= H. merge_options for dir="-" *)
+Inductive wf_node : node -> Prop :=
+| wf_leaf nm a l : wf_node (Leaf nm a l)
+| wf_group nm a subs : NoDup (map node_name subs) -> Forall wf_node subs -> wf_node (Group nm a subs).
+
+Lemma dict_get_set_same {V} (l : list (Z * V)) k v : dict_get (dict_set l k v) k = Some v.
+Proof.
+  induction l as [|[k' v'] r IH]; cbn; [rewrite Z.eqb_refl; reflexivity|].
+  destruct (k' =? k) eqn:E; cbn; [rewrite Z.eqb_refl; reflexivity|rewrite E; exact IH].
+Qed.
+Lemma dict_get_set_other {V} (l : list (Z * V)) k k2 v : k2 <> k -> dict_get (dict_set l k v) k2 = dict_get l k2.
+Proof.
+  intros Hne. induction l as [|[k' v'] r IH]; cbn.
+  - destruct (k =? k2) eqn:E; [apply Z.eqb_eq in E; congruence|reflexivity].
+  - destruct (k' =? k) eqn:E; cbn.
+    + apply Z.eqb_eq in E; subst k'. destruct (k =? k2) eqn:E2; [apply Z.eqb_eq in E2; congruence|reflexivity].
+    + destruct (k' =? k2); [reflexivity|exact IH].
+Qed.
+
+Fixpoint merge_list (dash : bool) (ss : list node) (dd : list (Z * dval)) (xd : list (Z * xval)) : err + (dval * xval) :=
+  match ss with
+  | [] => inr (DDict dd, XDict xd)
+  | s :: r =>
+    let sd := if dash then DDash else dget dd (node_name s) in
+    let sx := xget xd (node_name s) in
+    match merge_options s sd sx with
+    | inl e => inl e
+    | inr (d', x') => merge_list dash r (dict_set dd (node_name s) d') (dict_set xd (node_name s) x')
+    end
+  end.
+Lemma merge_group_dash nm a subs :
+  merge_options (Group nm a subs) DDash XNone = merge_list true subs [] [].
+Proof.
+  cbn [merge_options].
+  match goal with |- ?f subs [] [] = _ => assert (E : forall ss dd xd, f ss dd xd = merge_list true ss dd xd) end.
+  { induction ss as [|s r IH]; intros dd xd; [reflexivity|]. cbn [merge_list].
+    destruct (merge_options s DDash (xget xd (node_name s))) as [e|[d' x']]; [reflexivity|]. apply IH. }
+  apply E.
+Qed.
+
+(* every leaf option is "-" *)
+Inductive dashed : node -> dval -> Prop :=
+| dashed_leaf nm a l : dashed (Leaf nm a l) DDash
+| dashed_group nm a subs dd : Forall (fun s => dashed s (dget dd (node_name s))) subs -> dashed (Group nm a subs) (DDict dd).
+
+Lemma merge_dash : forall n, wf_node n -> exists d' x', merge_options n DDash XNone = inr (d', x') /\ dashed n d'.
+Proof.
+  induction n as [nm a l|nm a subs IH] using node_ind'; intros Hwf.
+  - exists DDash, (XInt 0). split; [reflexivity|constructor].
+  - inversion Hwf as [|? ? ? Hnd Hsub]; subst. rewrite merge_group_dash.
+    assert (L : forall ss, Forall (fun n => wf_node n -> exists d' x', merge_options n DDash XNone = inr (d', x') /\ dashed n d') ss ->
+                Forall wf_node ss -> NoDup (map node_name ss) ->
+                forall dd xd, (forall s, In s ss -> xget xd (node_name s) = XNone) ->
+                exists dd' xd', merge_list true ss dd xd = inr (DDict dd', XDict xd') /\
+                  Forall (fun s => dashed s (dget dd' (node_name s))) ss /\
+                  (forall k, ~ In k (map node_name ss) -> dict_get dd' k = dict_get dd k)).
+    { clear. induction ss as [|s r IHr]; intros HI Hw Hn dd xd Hx.
+      - exists dd, xd. repeat split; auto.
+      - inversion HI as [|? ? His HIr]; inversion Hw as [|? ? Hws Hwr]; inversion Hn as [|? ? Hnin Hnr]; subst.
+        destruct (His Hws) as (d' & x' & Hm & Hd).
+        cbn [merge_list]. rewrite (Hx s (or_introl eq_refl)), Hm.
+        destruct (IHr HIr Hwr Hnr (dict_set dd (node_name s) d') (dict_set xd (node_name s) x')) as (dd' & xd' & Hml & Hall & Hkeep).
+        { intros s2 Hs2. unfold xget. rewrite dict_get_set_other.
+          - apply (Hx s2). right; exact Hs2.
+          - intros Heq. apply Hnin. rewrite <- Heq. apply in_map. exact Hs2. }
+        exists dd', xd'. split; [exact Hml|]. split.
+        + constructor; [|exact Hall]. unfold dget. rewrite (Hkeep _ Hnin), dict_get_set_same. exact Hd.
+        + intros k Hk. cbn in Hk. rewrite Hkeep by tauto. apply dict_get_set_other. intros ->. tauto. }
+    destruct (L subs IH Hsub Hnd [] []) as (dd' & xd' & Hml & Hall & _); [reflexivity|].
+    exists (DDict dd'), (XDict xd'). split; [exact Hml|]. constructor. exact Hall.
+Qed.
+
+Lemma dashed_flatten : forall n d, dashed n d -> forall x pth attrs,
+  Forall (fun j => opts_ok (j_d j) (j_x j)) (flatten n d x pth attrs).
+Proof.
+  induction n as [nm a l|nm a subs IH] using node_ind'; intros d Hd x pth attrs.
+  - inversion Hd; subst. cbn. constructor; [left; reflexivity|constructor].
+  - inversion Hd as [|? ? ? dd Hall]; subst. rewrite flatten_group. cbn [ddict].
+    induction IH as [|s r Hs _ IHr]; [constructor|]. inversion Hall as [|? ? Hds Hdr]; subst.
+    cbn [flatten_list ddict]. apply Forall_app. split; [apply Hs; exact Hds|].
+    apply IHr; [constructor; exact Hdr|exact Hdr].
+Qed.
+
+(* a dir="-" request on a well-formed resource whose names all resolve can only be refused with ResourceError *)
+Lemma request_dash_refusal t cm st q res st' e :
+  tbl_lookup t (q_key q) = Some res -> key_mem (q_key q) (requested st) = false ->
+  wf_node res -> q_dir q = DDash -> q_xdr q = XNone ->
+  Forall (leaf_resolves (cm_fuel cm) cm) (leaves_of res) ->
+  request t cm st q = (st', Error e) -> e = EResource.
+Proof.
+  intros Hl Hk Hwf Hd Hx Hr H. destruct (merge_dash res Hwf) as (d' & x' & Hm & Hds).
+  eapply (request_refusal_kind t cm st q res d' x' st' e); eauto.
+  - rewrite Hd, Hx. exact Hm.
+  - apply dashed_flatten. exact Hds.
+Qed.
